@@ -237,6 +237,8 @@ where
 {
     let mut merged_dict = MergeSkaDict::new(k, total_size, rc);
     for (idx, (name, filename, second_file)) in input_files.iter().enumerate() {
+        #[cfg(feature = "verif-hooks")]
+        crate::verif_hooks::sched_point(11);
         let ska_dict = SkaDict::new(
             k,
             idx + offset,
